@@ -1613,7 +1613,9 @@ nni_http_handler_init_static(nni_http_handler **hpp, const char *uri,
 		return (NNG_ENOMEM);
 	}
 	hs->size = size;
-	memcpy(hs->data, data, size);
+	if (size > 0) {
+		memcpy(hs->data, data, size);
+	}
 
 	if ((rv = nni_http_handler_init(&h, uri, http_handle_static)) != 0) {
 		http_static_free(hs);
